@@ -15,7 +15,8 @@ from vlib.runner import hyp_run
 PROPERTY = 'C13'
 RULE = ('prefix over the unrestricted C12 alphabet, then GET manual-stop, then a continuation of environment events '
         '(accept/refuse late attempts, peer messages/close, ticks, then 10 x 240 s of time), then GET manual-start and a '
-        'cooperative peer. Non-trivial = stop issued outside Idle or with an attempt / timer pending; distinct by '
+        'cooperative peer; also a stop issued during the start-up delay, before the agent\'s first automatic start. '
+        'Non-trivial = stop issued outside Idle or with an attempt / timer pending; distinct by '
         '(prefix, continuation).')
 ASSUMPTIONS = [
     'REST calls are atomic between reactor events',
@@ -55,6 +56,8 @@ def cont_enabled(d):
         ev.append(['tick', 0])
     if r.pending_io():
         ev.append(['io'])
+    if not d.booted:
+        ev.append(['boot'])     # the start-up delay runs out: the agent's own first automatic start
     return ev
 
 
@@ -67,6 +70,8 @@ def run_case(case, explicit=False):
             if list(ev) not in d.enabled():
                 return d, [], None
             d.apply(list(ev))
+    elif case.get('warm') == 'preboot':
+        pass            # the stop comes during the start-up delay, before the first automatic start
     else:
         d.apply(['boot'])
         for ev in {'none': [], 'opensent': [['ok', 0]], 'openconfirm': [['ok', 0], ['open', 0, 'valid', 90]],
@@ -83,7 +88,8 @@ def run_case(case, explicit=False):
     had_live = bool(d.live())
     pend = bool(r.attempts())
     timers = bool(r.pending())
-    nontrivial = state_before != 'IDLE' or pend or timers
+    nontrivial = state_before != 'IDLE' or pend or timers or not d.booted
+    preboot = not d.booted
     mark = sim.mark()
     code, body = sim.manual_stop()
     r.settle(fire_due=True)
@@ -120,6 +126,9 @@ def run_case(case, explicit=False):
             d.apply(list(ev))
             cont.append(list(ev))
     else:
+        if not d.booted:
+            d.apply(['boot'])
+            cont.append(['boot'])
         for ch in case['cont_choices']:
             en = cont_enabled(d)
             if not en:
@@ -188,7 +197,7 @@ def run_case(case, explicit=False):
                 out.append(('start-while-established:effect', 'manual-start in ESTABLISHED caused %r, state %s' % (tr, sim.state)))
             if not body or body.get('status') is not False:
                 out.append(('start-while-established:reply', 'manual-start in ESTABLISHED answered %r' % (body,)))
-    return d, out, {'cfg': cfg, 'prefix': prefix, 'cont': cont, 'nontrivial': nontrivial, 'stopped_in': state_before,
+    return d, out, {'cfg': cfg, 'prefix': prefix, 'cont': cont, 'nontrivial': nontrivial, 'stopped_in': state_before if not preboot else 'PREBOOT',
                     'pending_attempt': pend}
 
 
@@ -197,7 +206,7 @@ def _mtype(b):
 
 
 def shards(tier):
-    n = 400 if tier == 'quick' else 40000
+    n = 800 if tier == 'quick' else 40000
     return [{'name': 'stop-%d' % i, 'kind': 'hyp', 'examples': n, 'hypothesis': True} for i in range(8 if tier == 'quick' else 16)]
 
 
@@ -209,7 +218,7 @@ def run_shard(spec, seed, col, tier):
                                                       'stopped-in:' + _stop_state(info)])
         for sig, detail in res:
             col.fail(sig, explicit, detail)
-    strat = st.fixed_dictionaries({'cfg': st.sampled_from(CONFIGS), 'warm': st.sampled_from(['none', 'none', 'opensent', 'openconfirm', 'established', 'established']),
+    strat = st.fixed_dictionaries({'cfg': st.sampled_from(CONFIGS), 'warm': st.sampled_from(['none', 'none', 'opensent', 'openconfirm', 'established', 'established', 'preboot']),
                                    'prefix_choices': st.lists(st.integers(0, 999), min_size=0, max_size=16),
                                    'cont_choices': st.lists(st.integers(0, 999), min_size=0, max_size=6)})
     hyp_run(col, strat, body, seed, spec['examples'])
